@@ -11,13 +11,19 @@
 //	(e) race        thorough tier: the concurrent scenario under the Go race detector
 //
 // A difference is a "judge" finding whose Key is "anchor-order" when the two traces differ only by
-// the order of the anchors inside a page (the known defect KF15-1), else the first differing call.
+// the order of the anchors inside a page (F15-1, fixed in /repo by 37ac465: a regression if seen
+// again), the name of a known order dependence (KF15-2..4) when an ablation attributes it, else
+// the first differing call.
 package c15
 
 import (
 	"crypto/sha256"
 	"encoding/hex"
+	"encoding/json"
 	"fmt"
+	"os"
+	"os/exec"
+	"path/filepath"
 	"regexp"
 	"sort"
 	"strings"
@@ -32,7 +38,7 @@ import (
 	"wrverif/rng"
 )
 
-const renderTimeout = 60 * time.Second
+var renderTimeout = 60 * time.Second
 
 // Trace is the canonical text of all backend calls of one render.
 type Trace struct {
@@ -175,6 +181,12 @@ func (rn *runner) compare(scen string, d Doc, ref, got Trace, detail string) boo
 	rn.mu.Lock()
 	defer rn.mu.Unlock()
 	rn.out.Hit("compare:" + scen)
+	if got.Crash == "timeout" || ref.Crash == "timeout" {
+		// wall-clock timeouts depend on the load of the machine: not a statement about determinism
+		// (hangs belong to C01)
+		rn.out.Hit("timeout-skipped")
+		return true
+	}
 	if got.Crash != "" || ref.Crash != "" {
 		if got.Crash != ref.Crash {
 			// a render that crashes only sometimes is a determinism failure as well
@@ -295,23 +307,161 @@ func (t Trace) hashes() hashes { return hashes{hash(t.Raw), hash(t.Canon), t.Cra
 // Run is the entry point registered for `wrh run C15`.
 func Run(tier string, seed uint64, modelPath, repo string, out *res.Result) error {
 	render.Quiet()
-	nDocs, chunk, par := 300, 10, 3
-	if tier == "thorough" {
-		nDocs, chunk, par = 10000, 50, 6
-	}
 	out.Rule = "documents generated from one PRNG (blocks, inline content, ids+links+bookmarks, counters and target-counter(), " +
 		"::before/::after/::first-letter, floats taller than the page, tables, grid/flex/columns, data: images, inline SVG with defs/use, " +
-		"hyphens:auto, page margin boxes with page counters/string()/element()). Every document is rendered: 1 reference + 2 repeats in process " +
+		"hyphens:auto, page margin boxes with page counters/string()/element(); 3 in 5 documents have no float/abspos/grid so that the known " +
+		"defects cannot mask new ones). Every document is rendered: 1 reference + 2 repeats in process " +
 		"(one after a history of other renders), 2 fresh worker processes (chunks rendered in different orders), 1 concurrent render " +
 		"(N in {2,4,8} goroutines, own font configuration each). Traces (every backend call with arguments) must be identical. " +
 		"non-trivial = the document did not crash and produced at least one page; distinct = distinct document text."
-	rn := &runner{out: out, repo: repo}
+	docs := allDocs(tier, seed)
+	if tier != "thorough" {
+		return runDocs(tier, seed, modelPath, repo, out, docs)
+	}
+	// thorough: the race-detector run (first documents) in parallel with `shards` child processes,
+	// each running the complete scenario set on its share of the documents
+	raceDone := make(chan error, 1)
+	raceOut := res.New(out.Property, tier, seed)
+	go func() {
+		n := 1500
+		if n > len(docs) {
+			n = len(docs)
+		}
+		raceDone <- raceRun(&runner{out: raceOut, repo: repo}, docs[:n], seed)
+	}()
+	const shards = 6
+	exe, err := os.Executable()
+	if err != nil {
+		return err
+	}
+	tmp, err := os.MkdirTemp("", "c15shards")
+	if err != nil {
+		return err
+	}
+	defer os.RemoveAll(tmp)
+	var wg sync.WaitGroup
+	errs := make([]error, shards)
+	for k := 0; k < shards; k++ {
+		wg.Add(1)
+		go func(k int) {
+			defer wg.Done()
+			cmd := exec.Command(exe)
+			cmd.Env = append(os.Environ(), "WRH_C15_WORKER=shard", "WRH_C15_REPO="+repo, fmt.Sprintf("WRH_C15_SHARD=%d/%d", k, shards),
+				fmt.Sprintf("WRH_C15_SEED=%d", seed), "WRH_C15_MODEL="+modelPath, "WRH_C15_OUT="+filepath.Join(tmp, fmt.Sprintf("s%d.json", k)))
+			cmd.Stderr = os.Stderr
+			errs[k] = cmd.Run()
+		}(k)
+	}
+	wg.Wait()
+	for k := 0; k < shards; k++ {
+		if errs[k] != nil {
+			return fmt.Errorf("shard %d: %v", k, errs[k])
+		}
+		if err := mergeResult(out, filepath.Join(tmp, fmt.Sprintf("s%d.json", k))); err != nil {
+			return fmt.Errorf("shard %d: %v", k, err)
+		}
+	}
+	if err := <-raceDone; err != nil {
+		out.NotChecked = append(out.NotChecked, "race detector run: "+err.Error())
+		out.Notes = append(out.Notes, "race detector run failed: "+err.Error())
+	}
+	for _, f := range raceOut.Findings {
+		out.Add(f)
+	}
+	for k, v := range raceOut.Dist {
+		if !strings.HasPrefix(k, "finding:") {
+			out.Dist[k] += v
+		}
+	}
+	out.Notes = append(out.Notes, raceOut.Notes...)
+	return nil
+}
+
+// mergeResult adds a shard's result file into out.
+func mergeResult(out *res.Result, path string) error {
+	b, err := os.ReadFile(path)
+	if err != nil {
+		return err
+	}
+	var r res.Result
+	if err := json.Unmarshal(b, &r); err != nil {
+		return err
+	}
+	out.Evaluations += r.Evaluations
+	out.Nontrivial += r.Nontrivial
+	out.ModelCalls += r.ModelCalls
+	for k, v := range r.Dist {
+		if !strings.HasPrefix(k, "finding:") {
+			out.Dist[k] += v
+		}
+	}
+	for _, f := range r.Findings {
+		out.Add(f)
+	}
+	for _, s := range r.Samples {
+		out.Sample(s)
+	}
+	out.Notes = append(out.Notes, r.Notes...)
+	for _, n := range r.NotChecked {
+		if !strings.Contains(n, "race detector") {
+			out.NotChecked = append(out.NotChecked, n)
+		}
+	}
+	return nil
+}
+
+// ShardMain: one shard of the thorough tier (child process).
+func ShardMain(repo string) int {
+	var k, n int
+	var seed uint64
+	fmt.Sscanf(os.Getenv("WRH_C15_SHARD"), "%d/%d", &k, &n)
+	fmt.Sscan(os.Getenv("WRH_C15_SEED"), &seed)
+	out := res.New("C15", "thorough", seed)
+	all := allDocs("thorough", seed)
+	var docs []Doc
+	for i, d := range all {
+		if n > 0 && i%n == k {
+			docs = append(docs, d)
+		}
+	}
+	if err := runDocs("thorough", seed+uint64(k)*7919, os.Getenv("WRH_C15_MODEL"), repo, out, docs); err != nil {
+		fmt.Fprintln(os.Stderr, "c15 shard:", err)
+		return 3
+	}
+	if err := out.Write(os.Getenv("WRH_C15_OUT")); err != nil {
+		fmt.Fprintln(os.Stderr, "c15 shard:", err)
+		return 3
+	}
+	return 0
+}
+
+func allDocs(tier string, seed uint64) []Doc {
+	nDocs := 280
+	if tier == "thorough" {
+		nDocs = 10000
+	}
+	if v := os.Getenv("WRH_C15_NDOCS"); v != "" { // debugging aid: smaller runs
+		fmt.Sscan(v, &nDocs)
+	}
 	r := rng.New(seed)
 	docs := make([]Doc, nDocs)
 	for i := range docs {
 		docs[i] = genDoc(r.Sub(), i)
 	}
 	docs = append(corpusDocs(), docs...)
+	for i := range docs {
+		docs[i].ID = i
+	}
+	return docs
+}
+
+// runDocs runs scenarios (a)-(d) on docs.
+func runDocs(tier string, seed uint64, modelPath, repo string, out *res.Result, docs []Doc) error {
+	chunk, par := 10, 3
+	if tier == "thorough" {
+		chunk, par = 40, 2
+	}
+	rn := &runner{out: out, repo: repo}
 	for i := range docs {
 		docs[i].ID = i
 	}
@@ -368,7 +518,7 @@ func Run(tier string, seed uint64, modelPath, repo string, out *res.Result) erro
 		// repeat with the font configuration shared by all sequential repeats (warm caches)
 		rn.compare("repeat", d, ref, renderTrace(d.HTML, shared, repo), "same process, font configuration shared with earlier renders")
 		// history: a few OTHER documents in between, then again
-		for k, n := 0, hr.Range(0, 2); k < n && len(ok) > 1; k++ {
+		for k, n := 0, hr.Range(0, 1); k < n && len(ok) > 1; k++ {
 			o := docs[ok[hr.Intn(len(ok))]]
 			if o.ID != d.ID {
 				renderTrace(o.HTML, shared, repo)
@@ -418,16 +568,7 @@ func Run(tier string, seed uint64, modelPath, repo string, out *res.Result) erro
 	// (b) collect
 	fresh.wait(base)
 
-	if tier == "thorough" {
-		var sel []Doc
-		for _, i := range ok {
-			sel = append(sel, docs[i])
-		}
-		if err := raceRun(rn, sel, seed); err != nil {
-			out.NotChecked = append(out.NotChecked, "race detector run: "+err.Error())
-			out.Notes = append(out.Notes, "race detector run failed: "+err.Error())
-		}
-	} else {
+	if tier != "thorough" {
 		out.NotChecked = append(out.NotChecked, "race detector run (thorough tier only)")
 	}
 	if model != nil {
